@@ -177,6 +177,21 @@ pub fn source_values<S: Src>(seed: u64, n_random: u64) -> (Vec<S>, bool) {
     if let Some(s) = S::from_u128(u128::MAX) {
         outu.push(s);
     }
+    // two's-complement style aliases at the top of the unsigned range: 2^BITS - 2^sh + v
+    for sh in [8u32, 16, 32, 64, 96, 127] {
+        for v in [0u128, 1, 5, 15, 16, 127, 128, 16383, 16384] {
+            let x = (u128::MAX - (1u128 << sh) + 1).wrapping_add(v);
+            if let Some(s) = S::from_u128(x) {
+                outu.push(s);
+            }
+            if S::BITS < 128 {
+                let top = (1u128 << S::BITS) - (1u128 << sh.min(S::BITS - 1));
+                if let Some(s) = S::from_u128(top.wrapping_add(v)) {
+                    outu.push(s);
+                }
+            }
+        }
+    }
     out.extend(outu);
     let mut m = Mix(seed ^ hash_str(S::NAME));
     for i in 0..n_random {
@@ -724,7 +739,7 @@ fn per_type<N: Nt>(ctx: &Ctx, mode: Mode, subs: &mut Vec<Sub>) {
 
 pub fn run_ints(ctx: &Ctx, mode: Mode) -> Report {
     let mut subs: Vec<Sub> = Vec::new();
-    let n_random = ctx.pick(2_000u64, 20_000, 2_000_000);
+    let n_random = ctx.pick(2_000u64, 100_000, 2_000_000);
 
     per_type::<U4>(ctx, mode, &mut subs);
     per_type::<U7>(ctx, mode, &mut subs);
@@ -983,7 +998,7 @@ fn produced_values(ctx: &Ctx, subs: &mut Vec<Sub>) {
             "non-trivial = history with a report; distinct by hash",
             false,
         );
-        let cases = ctx.pick(1_000u64, 10_000, 200_000);
+        let cases = ctx.pick(1_000u64, 40_000, 200_000);
         let sub = par_proptest(
             ctx,
             &proto,
@@ -1064,6 +1079,30 @@ fn produced_by_scanners(a: &[crate::ops::Op], b: &[crate::ops::Op]) -> Result<RO
                 }
                 Op::Reset => api(|| sc.reset()),
                 _ => {}
+            }
+        }
+        // the polling scanner (std only; time does not matter for the range of what it reports)
+        #[cfg(feature = "hm_std")]
+        {
+            let mut sc = crate::p_polling::new_scanner(0);
+            for op in b {
+                match *op {
+                    Op::Feed { carrier, s, d1, d2 } => {
+                        for m in polling::feed_polling(&mut sc, carrier, s, d1, d2).iter().flatten() {
+                            reports += 1;
+                            let r = observe_pn(m);
+                            ensure!(r.channel <= 15 && r.number <= 16383 && r.value <= 16383 && (r.is_14_bit || r.value <= 127), "produced_out_of_range/polling_scanner", "{:?}", r);
+                        }
+                        if s >> 4 == 0xB && d2 % 8 == 0 {
+                            if let Some(m) = api(|| sc.poll(h_ch(s & 15))) {
+                                let r = observe_pn(&m);
+                                ensure!(r.channel <= 15 && r.number <= 16383 && r.value <= 16383 && (r.is_14_bit || r.value <= 127), "produced_out_of_range/polling_scanner", "{:?}", r);
+                            }
+                        }
+                    }
+                    Op::Reset => api(|| sc.reset()),
+                    _ => {}
+                }
             }
         }
         Ok(ROutcome { nontrivial: reports > 0, classes: if reports > 0 { vec!["has_report"] } else { vec![] }, hash: hash64(&(a, b)) })
